@@ -306,6 +306,9 @@ func checkC04(p *core.Program, r *core.Report) {
 	const R6 = "C04.R6 close-routine-closes"
 	r.Rule(R6, "every path through the close-once body closes the transport and reports the connection end exactly once - also when the write of the close announce fails (rule shared with C11.R1/R2)")
 	checkShipCloseOnce(p, r, R6, R6)
+	const R7 = "C04.R7 transport-close-really-closes"
+	r.Rule(R7, "the transport's close routine closes the stop channel and the socket on every path, and CloseDataConnection reaches it on every path (shared with C13.R1/R8): 'the transport gets closed' also when a write failed first or the close frame cannot be written")
+	importRules(p, r, "C13", map[string]string{"C13.R1 close-routine-releases": R7, "C13.R8 local-close-always-closes": R7}, nil)
 
 	// R5: the state setter reports every change upward, with this connection's SKI and the new state
 	const R5 = "C04.R5 every-change-reported"
@@ -519,6 +522,8 @@ func checkC01(p *core.Program, r *core.Report) {
 	}
 	// ... and leaves no trust or queued state behind (rule shared with C10.R2/R3)
 	checkRevocation(p, r, R5, R5)
+	// ... and finds the live connection: the registry entry of a connection is only removed by that connection's own end
+	importRules(p, r, "C11", map[string]string{"C11.R3 registry-identity-atomic": R5}, nil)
 	// R7: the SKI the trust predicates are asked about is the one the peer proved (rule shared with C02.R1)
 	const R7 = "C01.R7 trusted-identity-is-proven"
 	r.Rule(R7, "the SKI under which a connection is created - and the trust predicates are asked about - is the peer's proven one: extracted from the first certificate of this connection's TLS state, bound to that certificate's public key, compared with the dialled SKI on every dial attempt, with every refusing branch closing the socket (rules shared with C02.R1/R2/R4)")
